@@ -380,6 +380,15 @@ class SkelEval(Eval):
             return v.fields['repr']
         return v
 
+    def ev_bin(self, t):
+        a, b = self.norm_flags(self.ev(t[2])), self.norm_flags(self.ev(t[3]))
+        if isinstance(a, Flags) and isinstance(b, Flags):
+            if t[1] == '|':
+                return Flags(a.ty, a.bits | b.bits)
+            if t[1] == '&':
+                return Flags(a.ty, a.bits & b.bits)
+        return {'+': lambda: a + b, '-': lambda: a - b, '*': lambda: a * b, '|': lambda: a | b}[t[1]]()
+
     def ev_reccall(self, t):
         q, args = t[1], t[2]
         f = self.ogp.crate.fns[q]
@@ -473,6 +482,8 @@ class SkelEval(Eval):
             return Tok('include_str ! ( ' + rust_str(str(self.ev(args[0]))) + ' )')
         if p.endswith('ShaderStages::all'):
             return Flags('wgpu::ShaderStages', ['VERTEX', 'FRAGMENT', 'COMPUTE'])
+        if p.endswith(('ShaderStages::empty', 'ShaderStages::default')):
+            return Flags('wgpu::ShaderStages', [])
         raise Unbound(t)
 
     def ev_unwrap(self, t):
